@@ -48,6 +48,24 @@ it leaves exactly what a fresh `deserialize` returns (never a stale tail of the 
 theorem in_place_default :
     (∀ r ∈ deRows, r.overridesInPlace = false) ∧ auxVisitors = [] := by decide
 
+/-- Every `borrow_deserialize` (`HipByt`, `HipStr`, and `HipPath` through `HipStr`'s) asks the
+format for the BORROWABLE form — `deserialize_bytes` / `deserialize_str` — never for
+`deserialize_byte_buf` / `deserialize_string`: with a format that honours the hint (bincode-like)
+the latter would hand out a fresh buffer and the "borrowing" constructor would copy. -/
+theorem borrow_entry_points_ask_borrowed :
+    entryHint deRows .byt .borrowing = some .bytes ∧
+    entryHint deRows .str .borrowing = some .str ∧
+    entryHint deRows .path .borrowing = some .str := by decide
+
+/-- The owned `Deserialize` impls ask for a form of their own family (`deserialize_bytes` or
+`_byte_buf` for `HipByt`; `deserialize_str` or `_string` for `HipStr`, and `HipPath` through it);
+`HipOsStr` leaves the choice to std's `OsString`. -/
+theorem owned_entry_points_hint :
+    (entryHint deRows .byt .owned = some .bytes ∨ entryHint deRows .byt .owned = some .byteBuf) ∧
+    (entryHint deRows .str .owned = some .str ∨ entryHint deRows .str .owned = some .string) ∧
+    (entryHint deRows .path .owned = some .str ∨ entryHint deRows .path .owned = some .string) ∧
+    entryHint deRows .os .owned = none := by decide
+
 /-- Every `visit_*` of a visitor that produces a `HipStr` receives a Rust string type, or
 validates (`from_utf8`) before constructing, or is an unconditional error; none collects a
 sequence of bytes. -/
@@ -400,6 +418,12 @@ example : borshDeRowOk capLimit
     = false := by decide
 example : borshSerRowOk ⟨.byt, .sliceU8, [.write], false, "x"⟩ = false := by decide
 example : deRowOk visitors deRows ⟨.byt, .owned, .visitor .bytes .bytOwned, true, "x"⟩ = false := by decide
+-- the owned hint is fine for the owned entry point and rejected for `borrow_deserialize`
+example : deRowOk visitors deRows ⟨.byt, .owned, .visitor .byteBuf .bytOwned, false, "x"⟩ = true := by decide
+example : deRowOk visitors deRows ⟨.byt, .borrowing, .visitor .byteBuf .bytBorrowed, false, "x"⟩ = false := by
+  decide
+example : deRowOk visitors deRows ⟨.str, .borrowing, .visitor .string .strBorrowed, false, "x"⟩ = false := by
+  decide
 example : (deShape (.reader 4 true .exact true .setLen) [0xff, 0xff, 0xff, 0xff, 1, 2, 3]).maxRequest
     = 4294967295 := by decide
 example : visitorOk capLimit
